@@ -13,6 +13,7 @@ R13.3 declaration order is the scanner's priority order: built-in tokens are pus
 R13.5 each pattern is expanded with its own kind: in generate_build_information every TerminalKind::expand call takes
       kind and text from the same object - the terminal's (k, t) of the ordered-terminal tuple, or the look-ahead
       expression's own (kind, pattern) fields; the scanner state filter reads the tuple's state list (field 3).
+R13.6 no binary search on lists whose order is the order of encounter (hazard rule, expected count 0).
 R13.4 declared scanner transitions reach the generated scanner unfiltered: generate_build_information returns a plain
       clone of self.transitions, and the Display impl writes every transition.
 """
@@ -208,3 +209,39 @@ def check(ctx):
                       "quoting of the terminal or its look-ahead is mixed up" % ([e[2] for e in kf], [e[2] for e in tf]),
                       where(b, c.line))
     ctx.require_floor("R13.5", "expand_calls", n_exp, 2)
+    no_binary_search_on_unsorted(ctx, facts)
+
+
+def no_binary_search_on_unsorted(ctx, facts):
+    """R13.6 (added after seed C13-c; expected count 0 in hand-written code) binary search is only used on data that is sorted
+    by construction: outside the generated scanners (scnr2's character-class tables) no binary_search* / partition_point is
+    applied to a list in the generators - in particular not to the scanner-state lists of terminals, which
+    Cfg::get_ordered_terminals unites in order of encounter (`[1, 0]` when the occurrence in the higher state comes first);
+    a binary search misses a member there and the terminal silently disappears from that scanner state."""
+    from .common import fn_key
+    hits = []
+    n = 0
+    for b in facts.in_crate(PA):
+        if not (b.module or "").startswith(("parol::generators", "parol::grammar", "parol::analysis", "parol::transformation",
+                                            "parol::conversions")):
+            continue
+        n += 1
+        for c in b.calls():
+            nm = (c.path or "").split("::")[-1]
+            if nm.startswith("binary_search") or nm == "partition_point":
+                # sorted in this body before the search?
+                from ..dataflow import raw_operand_place
+                from .. import cfg
+                rp = raw_operand_place(b, c.args[0]) if c.args else None
+                dom = cfg.Dom(b)
+                sorted_here = any((x.path or "").split("::")[-1].startswith("sort") and dom.dominates(x.bb, c.bb) and
+                                  (raw_operand_place(b, x.args[0]) or [None])[0] == (rp or [None])[0] for x in b.calls())
+                if not sorted_here:
+                    hits.append((b, c, nm))
+    for b, c, nm in hits:
+        ctx.bad("R13.6", "%s|%s" % (fn_key(b, facts), nm),
+                "%s uses %s on a list that is not sorted in this function: a list in encounter order (e.g. the united scanner states of "
+                "a terminal) makes the search miss members" % (short(b.path), nm), where(b, c.line))
+    ctx.check(not hits, "R13.6", "no-binary-search-on-unsorted-lists", "no binary search on lists of unproven order in %d bodies" % n,
+              "%d such search(es)" % len(hits), nontrivial=False)
+    ctx.require_floor("R13.6", "bodies_scanned", n, 500)
